@@ -8,6 +8,7 @@
  */
 #ifndef XV_LOWER_H
 #define XV_LOWER_H
+#include "contracts/begin.h"
 
 
 #define XV_U8(p) ((const uint8_t *)(p))
@@ -38,12 +39,15 @@
 
 #define LOWER_RECV_ASSIGNS(buf, capacity) xv_errno, xv_rx_off, xv_rx_eof, xv_lower_dead, __CPROVER_object_upto((buf), (capacity))
 
+#define XV_RXB(buf, off, rv, pos, val) (((pos) >= (off) && (pos) < (off) + (rv)) ==> XV_U8(buf)[(pos) - (off)] == (val))
+#define XV_RX_BYTES(buf, off, rv) XV_RXB(buf, off, rv, xv_k, xv_rx_k)
+
 #define LOWER_RECV_ENSURES(rv, buf, capacity) ( \
     ((rv) == -1 && xv_errno > 0 && xv_rx_off == __CPROVER_old(xv_rx_off) && xv_rx_eof == __CPROVER_old(xv_rx_eof) && \
         (xv_errno != EAGAIN ==> xv_lower_dead) && (__CPROVER_old(xv_lower_dead) ==> xv_errno != EAGAIN)) || \
     ((rv) == 0 && xv_rx_eof && xv_rx_off == __CPROVER_old(xv_rx_off)) || \
     ((rv) >= 1 && (size_t)(rv) <= (capacity) && !__CPROVER_old(xv_rx_eof) && !xv_rx_eof && \
-        xv_rx_off == __CPROVER_old(xv_rx_off) + (rv) && \
-        (XV_IN_TX(__CPROVER_old(xv_rx_off), (rv)) ==> XV_U8(buf)[xv_k - __CPROVER_old(xv_rx_off)] == xv_rx_k)))
+        xv_rx_off == __CPROVER_old(xv_rx_off) + (rv) && XV_RX_BYTES(buf, __CPROVER_old(xv_rx_off), (rv))))
 
+#include "contracts/end.h"
 #endif
